@@ -201,6 +201,9 @@ func newCliWorld(r *Run, cfg cliCfg) *cliWorld {
 
 func (w *cliWorld) options() *jrpc2.ClientOptions {
 	o := &jrpc2.ClientOptions{}
+	if w.r.Gen.Chance("clilogger", 0.3) {
+		o.Logger = func(string) { rt.Yield("log") }
+	}
 	if w.withNote {
 		o.OnNotify = func(req *jrpc2.Request) {
 			var p tagParams
@@ -536,7 +539,20 @@ func (w *cliWorld) queueReply(q *creq) {
 		rep.IsErr = true
 		rep.Raw = fmt.Sprintf(`{"jsonrpc":"2.0","id":%s,"error":{"code":%d,"message":"%s","data":{"d":"%s"}}}`, q.ID, 9000+w.nrep, pay, pay)
 	default:
-		rep.Raw = fmt.Sprintf(`{"jsonrpc":"2.0","id":%s,"result":{"r":"%s"}}`, q.ID, pay)
+		// results of every JSON shape, with escapes, nesting, and far larger than any buffer
+		switch w.r.Sch.Weighted("resultshape", []int{24, 8, 4, 4, 1}) {
+		case 1:
+			rep.Result = fmt.Sprintf(`{"r":"%s","n":[1,2.5,{"x":null,"y":[true,false]}],"s":"\u00e9\"q\\ \n","e":{}}`, pay)
+		case 2:
+			rep.Result = fmt.Sprintf(`["%s",17,null,{"k":"v"}]`, pay)
+		case 3:
+			rep.Result = fmt.Sprintf(`"%s"`, pay)
+		case 4:
+			rep.Result = fmt.Sprintf(`{"r":"%s","pad":"%s"}`, pay, strings.Repeat("z", 70000+w.r.Sch.Int("padlen", 60000)))
+		default:
+			rep.Result = fmt.Sprintf(`{"r":"%s"}`, pay)
+		}
+		rep.Raw = fmt.Sprintf(`{"jsonrpc":"2.0","id":%s,"result":%s}`, q.ID, rep.Result)
 	}
 	q.Replies = append(q.Replies, rep)
 	w.outbox = append(w.outbox, rep.Raw)
